@@ -39,7 +39,13 @@ Inductive tree :=
 | TEff (e : Z) (t : tree)          (* the effect statement, then t *)
 | TIf (c : cond) (a b : tree)      (* if c then a else b *)
 | TGoto (n : nat)                  (* s_proc <= state_n (end of this clock's code) *)
-| TStay.                           (* no transition assigned: stay in the current state *)
+| TStay                            (* no transition assigned: stay in the current state *)
+(* the wait counter: a registered signal (std.wait_for: [counter = Signal(n - 1)] per call,
+   Waiter: one [_duration_cnt]; only one wait is active at a time and the counter is 0 outside,
+   so one register models both) - reads see the value at the clock edge, a write is pending *)
+| TSetW (z : Z) (t : tree)         (* counter <= z *)
+| TDecW (t : tree)                 (* counter <= counter - 1 *)
+| TIfW (a b : tree).               (* if counter /= 0 then a else b *)
 
 Definition machine := list (nat * tree).
 
@@ -49,38 +55,44 @@ Fixpoint tree_at (m : machine) (n : nat) : tree :=
   | (k, t) :: r => if Nat.eqb k n then t else tree_at r n
   end.
 
-(** one clock of the code of a state: [cur] is the current state *)
-Fixpoint run_tree (inp : cinp) (t : tree) (cur : nat) (w : work) : nat * work :=
+(** one clock of the code of a state: [cur] is the current state, [rc] the counter value at the
+    edge, [pc] its pending next value (initially [rc]) *)
+Fixpoint run_tree (inp : cinp) (t : tree) (cur : nat) (w : work) (rc pc : Z) : nat * work * Z :=
   match t with
-  | TEff e t' => run_tree inp t' cur (do_eff e w)
-  | TIf c a b => if ceval inp w.(w_v) c then run_tree inp a cur w else run_tree inp b cur w
-  | TGoto n => (n, w)
-  | TStay => (cur, w)
+  | TEff e t' => run_tree inp t' cur (do_eff e w) rc pc
+  | TIf c a b => if ceval inp w.(w_v) c then run_tree inp a cur w rc pc else run_tree inp b cur w rc pc
+  | TGoto n => (n, w, pc)
+  | TStay => (cur, w, pc)
+  | TSetW z t' => run_tree inp t' cur w rc z
+  | TDecW t' => run_tree inp t' cur w rc (rc - 1)
+  | TIfW a b => if rc =? 0 then run_tree inp b cur w rc pc else run_tree inp a cur w rc pc
   end.
 
-Definition mstate := (nat * work)%type.
+(** state register, objects, wait counter *)
+Definition mstate := (nat * work * Z)%type.
 
 Definition mclock (m : machine) (st : mstate) (inp : cinp) : mstate :=
-  run_tree inp (tree_at m (fst st)) (fst st) (snd st).
+  run_tree inp (tree_at m (fst (fst st))) (fst (fst st)) (snd (fst st)) (snd st) (snd st).
 
 Definition work0 : work := {| w_v := 0; w_cnt := 0; w_mark := 0 |}.
-Definition minit : mstate := (O, work0).
+Definition minit : mstate := (O, work0, 0).
 
 Definition mobs (w : work) : res (list value) := Ok [VV KUns vw w.(w_cnt); VV KUns mw w.(w_mark)].
 
 (** the machine as a transition system with the observation type of [Sem.vstep] / [Coro.ref_step] *)
 Definition mstep (m : machine) (st : mstate) (inp : list value) : mstate * res (list value) :=
-  let st' := mclock m st (in_bits inp) in (st', mobs (snd st')).
+  let st' := mclock m st (in_bits inp) in (st', mobs (snd (fst st'))).
 
-(** the same over [list Z] configurations [state; v; cnt; mark] (shape of Equiv/RefTS.v) *)
+(** the same over [list Z] configurations [state; v; cnt; mark; wait counter] (shape of Equiv/RefTS.v) *)
 Definition mstepZ (m : machine) (st : list Z) (inp : list value) : list Z * res (list value) :=
   match st with
-  | [n; v; c; k] =>
-      let st' := mclock m (Z.to_nat n, {| w_v := v; w_cnt := c; w_mark := k |}) (in_bits inp) in
-      ([Z.of_nat (fst st'); (snd st').(w_v); (snd st').(w_cnt); (snd st').(w_mark)], mobs (snd st'))
+  | [n; v; c; k; wc] =>
+      let st' := mclock m (Z.to_nat n, {| w_v := v; w_cnt := c; w_mark := k |}, wc) (in_bits inp) in
+      let w' := snd (fst st') in
+      ([Z.of_nat (fst (fst st')); w'.(w_v); w'.(w_cnt); w'.(w_mark); snd st'], mobs w')
   | _ => (st, Err EFuel)
   end.
-Definition minitZ : list Z := [0; 0; 0; 0].
+Definition minitZ : list Z := [0; 0; 0; 0; 0].
 
 (** ** the lowering *)
 Fixpoint size (s : stmt) : nat :=
@@ -99,6 +111,7 @@ Fixpoint fo (s : stmt) (f : bool) : bool :=
   | Await ATrue => f
   | WhileFalse _ => f
   | Call b => fo b f
+  | Wait n => (n =? 1) && f          (* wait_for(1) is [await true] *)
   | _ => false
   end.
 
@@ -130,7 +143,11 @@ Fixpoint ctree (s : stmt) (o : nat) (E : env) (first : bool) (rest : tree) : tre
   (* the body of an awaited sub-coroutine is lowered in place; the blocks that end in [return]
      are open blocks after the call (IrGenerator.returned_blocks) *)
   | Call b => ctree b (S o) {| e_brk := TStay; e_cnt := TStay; e_ret := rest |} first rest
-  | Wait _ | WaitIn _ => TStay      (* outside the modelled grammar *)
+  (* std.wait_for(n) / Waiter.wait_for(n), n a constant: [await true] for n = 1, otherwise
+     [counter <<= n - 1; while counter: counter <<= counter - 1] (the loop head is a new state:
+     the assignment made the current state non-empty) *)
+  | Wait n => if n =? 1 then (if first then rest else TGoto o) else TSetW (n - 1) (TGoto o)
+  | WaitIn _ => TStay      (* outside the modelled grammar *)
   end.
 
 (** code of a loop-head state [h]: test, first segment of the body with the back edge to [h]
@@ -155,6 +172,9 @@ Fixpoint cstates (s : stmt) (o : nat) (E : env) (first : bool) (rest : tree) : m
       (if first then [] else [(o, hd)])
       ++ cstates b (S o) {| e_brk := rest; e_cnt := hd; e_ret := E.(e_ret) |} false (TGoto h)
   | Call b => cstates b (S o) {| e_brk := TStay; e_cnt := TStay; e_ret := rest |} first rest
+  | Wait n =>
+      if n =? 1 then (if first then [] else [(o, rest)])
+      else [(o, TIfW (TDecW (TGoto o)) rest)]
   | _ => []
   end.
 
@@ -173,6 +193,7 @@ Fixpoint zfall (s : stmt) (f : bool) : bool :=
   | If _ t e => zfall t false || zfall e false
   | Await (ACond _) | Await ATrue | WhileFalse _ | While _ _ => f
   | Call b => zfall b f || zret b f
+  | Wait n => (n =? 1) && f
   | _ => false
   end
 with zret (s : stmt) (f : bool) : bool :=
@@ -214,7 +235,11 @@ Fixpoint wf (s : stmt) (inloop incall first : bool) : bool :=
      there, the compiler's first state is still empty (see the report) *)
   | Return => incall && negb first
   | Call b => wf b false true first
-  | Wait _ | WaitIn _ => false
+  (* n >= 1 (the library asserts it); wait_for(1) as the very first action of the process is
+     excluded: the code resumes in the same clock, Coro.exec one clock later (known finding C16,
+     [lower_wait1_first_refuted]) *)
+  | Wait n => (1 <=? n) && negb ((n =? 1) && first)
+  | WaitIn _ => false
   end.
 
 (** fuel: [Coro.exec] is fuelled ([ref_fuel] per clock).  [fneed s nf] bounds the interpreter
@@ -236,7 +261,7 @@ Fixpoint fchk (s : stmt) (nf : nat) : bool :=
   | While _ b =>
       let nl := S (S (fneed b (S nf))) in
       Nat.leb (fneed b (S nf)) ref_fuel && Nat.leb nf ref_fuel && fchk b nl
-  | Await _ | WhileFalse _ => Nat.leb nf ref_fuel
+  | Await _ | WhileFalse _ | Wait _ => Nat.leb nf ref_fuel
   | Call b => fchk b (S nf)
   | _ => true
   end.
